@@ -45,7 +45,13 @@ STRINGS = [
     ('.byte 1', [46, 98, 121, 116, 101, 32, 49]),
     ('lbl: x', [108, 98, 108, 58, 32, 120]),
     ('', []),
+    ('\\x80\\xff', [128, 255]),
+    ('\\x7f\\x80k\\xa9', [127, 128, 107, 169]),
+    ('\\200\\377\\177', [128, 255, 127]),
 ]
+# every one-byte hexadecimal escape (8 strings of 32) and a sample of octal ones: one byte per character after escape processing
+STRINGS += [(''.join('\\x%02x' % c for c in range(b, b + 32)), list(range(b, b + 32))) for b in range(0, 256, 32)]
+STRINGS += [(''.join('\\%03o' % c for c in range(b, b + 16)), list(range(b, b + 16))) for b in (0x78, 0xF0)]
 STRINGS_DQ_ONLY = [
     ("it's", [105, 116, 39, 115]),
     ('q\\"q', [113, 34, 113]),
